@@ -267,8 +267,16 @@ def main(chk):
             chk.finding(f["key"], f["what"], inputs=f["inputs"], key=f["key"])
     chk.add_bounded("acls / aces / addrgroups are fixed points on their own rendering", len(ccases), len(ccases), "3 configurations x 8 settings (switches, grouping, five indentation settings incl. tabs)", viol, time.time() - t0,
                     [ccases[0][1]], exhaustive=False)
-    return chk.finish("other", "Bounded contract check (no deductive obligation): the constructors are regex/`**data()` glue outside the deductive subset; the "
-                      "per-class meaning is covered by C01/C05/C08/C09.", trusted_base=["the library's own constructors (self-consistency check)"])
+    # deductive part: the text normaliser every `line` setter starts with keeps exactly the words of its argument, in their order (so a rendered text,
+    # whose words are single-blank separated, comes back with the same words); everything behind it is bounded
+    import contracts.c_wildcard  # noqa
+    chk.prove(["c_wildcard"])
+    chk.replay_refuted()
+    chk.assumptions += ["engine law for the idiom `\" \".join(text.split())`: the whitespace split of the joined text gives the same words back (str semantics, audited; "
+                        "a rewrite of the normaliser with other primitives is reported unsupported and decided by the bounded part)"]
+    return chk.finish("other", "Deductive: helpers.replace_spaces and helpers.init_line (the normaliser of every `line` setter) return a text with exactly the words of the argument, in order, "
+                      "and accept every str. Bounded (labelled): the fixed-point statement itself - the constructors are regex/`**data()` glue outside the deductive subset; the "
+                      "per-class meaning is covered by C01/C05/C08/C09.", trusted_base=["z3 5.1.0", "cvc5", "pyvc", "the library's own constructors (self-consistency check of the bounded part)"])
 
 
 if __name__ == "__main__":
